@@ -106,7 +106,7 @@ def run(ck):
         rule="cases = for six message types (unit-like, fixed-size struct, String, nested Vec, byte blob, datacake's Status): "
              "to_view_bytes output vs the model's frame/CRC on bodies of 0..64 KiB (+1 MiB, checksum only); DataView::<T>::using on "
              "every single-bit flip, every truncation, every checksum-valid proper prefix, 1..8 byte extensions and other damage "
-             "of real frames (every mutation of frames up to ~0.7 KiB quick / 2 KiB thorough is also run on the extracted model; for "
+             "of real frames (every mutation of frames up to ~1 KiB quick / 3 KiB thorough is also run on the extracted model; for "
              "frames up to ~4 KiB every flip and truncation is judged by the oracle and a sample is run on the model); raw and "
              "typed request/reply exchanges and handler-error exchanges through Server::verif_local + Channel + RpcClient; all "
              "under a release build, a reduced stream and the corpus also under a debug-assertions build. "
